@@ -127,7 +127,11 @@ class Interp:
     def _walk(self, body, bi, env, heap, conds, visited, depth, fn):
         while True:
             if bi in visited:
-                raise NotKernel("loop in %s" % fn)
+                # a loop: only a `for` over a literal array (its iterator is modelled, every test is concrete) is unrolled
+                nrev = sum(1 for x in visited if isinstance(x, tuple))
+                if not any(isinstance(k_, tuple) and k_ and k_[0] == "arriter" for k_ in heap) or nrev > 300:
+                    raise NotKernel("loop in %s" % fn)
+                visited = visited | {("rev", nrev + 1)}
             visited = visited | {bi}
             bl = body["blocks"][bi]
             for s in bl["s"]:
@@ -283,6 +287,28 @@ class Interp:
         if orig in ("std::ops::Add::add", "std::ops::Sub::sub") and all(a in INT_TYPES for a in argtys):
             yield (("op", "Add" if name == "add" else "Sub", args[0], args[1]), heap, conds)
             return
+        if fn.endswith("impl std::iter::IntoIterator for [T; N]>::into_iter") and len(args) == 1:
+            cur = heap.get(args[0], args[0])
+            if isinstance(cur, tuple) and cur and cur[0] == "agg" and cur[1] == "array":
+                # a `for` over a literal array: the iterator is an opaque token, its position lives in the (per-path) heap
+                self._arrn = getattr(self, "_arrn", 0) + 1
+                heap = dict(heap)
+                heap[("arriter", self._arrn)] = (tuple(cur[2]), 0)
+                yield (("arrtoken", self._arrn), heap, conds)
+                return
+        if fn.startswith("<std::array::IntoIter<T, N> as std::iter::Iterator>::next") and len(args) == 1:
+            it_ = args[0]
+            while isinstance(it_, tuple) and it_ and it_[0] in ("ref", "deref") and len(it_) > 1 and isinstance(it_[1], tuple):
+                it_ = it_[1]
+            if isinstance(it_, tuple) and it_ and it_[0] == "arrtoken" and ("arriter", it_[1]) in heap:
+                elems, idx = heap[("arriter", it_[1])]
+                heap = dict(heap)
+                if idx < len(elems):
+                    heap[("arriter", it_[1])] = (elems, idx + 1)
+                    yield (("variant", "Some", (elems[idx],), 1), heap, conds)
+                else:
+                    yield (("variant", "None", (), 0), heap, conds)
+                return
         if fn.startswith("std::option::Option::<T>::"):
             if name == "is_some":
                 yield (("op", "Eq", self._discr(heap, args[0]), ("const", 1)), heap, conds)
